@@ -20,6 +20,8 @@ import glob
 import hashlib
 import os
 
+from . import pat
+
 NUM = "num"
 BOOL = "bool"
 NONE = "None"
@@ -83,7 +85,7 @@ class Model:
             mod = os.path.basename(f)[:-3]
             text = open(f, encoding="utf-8").read()
             self.digest.update(text.encode())
-            tree = ast.parse(text, filename=f)
+            tree = pat.desugar_match(ast.parse(text, filename=f))
             self.modules[mod] = tree
             self.paths[mod] = f
             for n in tree.body:
